@@ -976,8 +976,12 @@ OrangeTrackView::find_next_step_impl(detail::Intersection isect)
             },
             uid);
 
-        if (local_isect.distance < isect.distance)
+        if (local_isect.distance < isect.distance
+            || (local_isect && !isect
+                && local_isect.distance == isect.distance))
         {
+            // Closer than (or, for a distance-limited search, a boundary
+            // exactly at) the distance found so far
             isect = local_isect;
             min_level = levelid;
         }
